@@ -61,6 +61,8 @@ pub struct FileInfo {
 }
 
 pub struct St {
+    /// path of the LOCK file to probe from worker threads (set while a store is being dropped)
+    pub lock_probe: Option<String>,
     pub dir: String,
     pub lines: Vec<String>,
     pub wk: Vec<Wk>,
@@ -81,6 +83,7 @@ static GLOBAL: OnceLock<G> = OnceLock::new();
 pub fn g() -> &'static G {
     GLOBAL.get_or_init(|| G {
         m: Mutex::new(St {
+            lock_probe: None,
             dir: String::new(),
             lines: Vec::new(),
             wk: Vec::new(),
@@ -299,6 +302,7 @@ pub fn on_event(ev: &raft_log::verif_hooks::VerifEvent) {
             }
         }
         E::WorkerExit { ok } => {
+            probe_lock();
             let mut st = gl.m.lock().unwrap();
             let tid = std::thread::current().id();
             let (label, idx) = thread_label(&st);
@@ -380,6 +384,35 @@ pub fn set_mode(mode: Mode) {
     gl.cv.notify_all();
 }
 
+pub fn set_lock_probe(p: Option<String>) {
+    let gl = g();
+    let mut st = gl.m.lock().unwrap();
+    st.lock_probe = p;
+}
+
+/// Called on a worker thread right before one of its file-system calls (or its exit) while its
+/// store is being dropped: the directory lock must still be held by the store.
+fn probe_lock() {
+    let path = {
+        let st = g().m.lock().unwrap();
+        st.lock_probe.clone()
+    };
+    let Some(path) = path else { return };
+    let Ok(c) = std::ffi::CString::new(path) else { return };
+    unsafe {
+        let fd = libc::open(c.as_ptr(), libc::O_RDWR);
+        if fd < 0 {
+            return;
+        }
+        if libc::flock(fd, libc::LOCK_EX | libc::LOCK_NB) == 0 {
+            libc::flock(fd, libc::LOCK_UN);
+            let mut st = g().m.lock().unwrap();
+            st.lines.push("ev lock-free-while-worker-active".to_string());
+        }
+        libc::close(fd);
+    }
+}
+
 pub fn take_lines() -> Vec<String> {
     let gl = g();
     let mut st = gl.m.lock().unwrap();
@@ -446,6 +479,7 @@ enum Act {
 fn decide(kind: &str, id: u64, buf: Option<&[u8]>) -> Act {
     bump_thread_events();
     if is_worker_thread() {
+        probe_lock();
         {
             let st = g().m.lock().unwrap();
             if st.mode == Mode::Kill {
